@@ -14,8 +14,11 @@ Call paths
   jit_scalar  the numba dispatcher users call, float argument
   jit_array   the numba dispatcher, 1-D float64 array argument
   multi_py    `mode_calc_helper.inclin_calc_orderl{L}.inclination_on/off_maxl_L.py_func` (python body calling
-              the per-degree dispatchers): must return exactly the keys 2..L, each the table of that degree
+              the per-degree dispatchers): best-effort extra (module-internal names, not part of the statement): if
+              the helper is absent the case is labelled `multi:absent` and nothing is judged; if present its result
+              must contain the keys 2..L, each the table of that degree
   multi_jit   the same helper, compiled
+  (`.py_func` is taken as getattr(f, 'py_func', f): a plain function is used as it is)
   Quick tier: py for every l; jit_scalar for every l; jit_array for l <= 4; multi_* for L <= 4 (numba cold
   compile of the l = 7 array signature is 18 s, the l = 7 helper 20+ s); thorough tier: everything.
 
@@ -25,14 +28,15 @@ Oracles
           The oracle self-test validates the transcription of eq. 3.62 against the l = 2 closed forms
           (F_220(0) = 3, F_201 = 3/4 sin^2 I - 1/2, ...), (2l-1)!!, P_l(0)P_l(cos I) and against the
           DEFINING rotation identity of F_lmp for every (l, m) (see the oracle's docstring).
-          Key set must be exactly {(m,p): 0 <= m, p <= l}.
-  off     every key of the obliquity-off table: value == F_lmp(0)^2 (exact rational -> double, 1 ulp) and
-          == the full table evaluated at I = 0 (TOL); every key the off table omits: F_lmp(0) == 0 exactly
-          (rational arithmetic) and the full table at I = 0 is 0 within TOL*scale (the double evaluation of
-          e.g. l = 5 (1,1) leaves 8.8e-30 from cancellation: legitimate rounding of an exactly-zero value).
-          The off table ignores its argument's value but must have its shape.
-  coeffs  get_universal_coeffs(l)[m] == (2 - delta_0m)(l-m)!/(l+m)! (exact Fraction -> double, 1 ulp), keys
-          exactly 0..l, through the dispatcher and through .py_func.
+          The key set must contain every (m,p), 0 <= m, p <= l (extra keys are not judged).
+  off     every key of the obliquity-off table: value == the full table evaluated at I = 0 and == F_lmp(0)^2 (exact
+          rational -> double), both within TOL*scale; every key the off table omits: F_lmp(0)^2 (exact rational) and
+          the full table at I = 0 are 0 within TOL*scale (the double evaluation of e.g. l = 5 (1,1) leaves 8.8e-30 from
+          cancellation: legitimate rounding of an exactly-zero value; an off table implemented as full(0.0) is
+          therefore accepted).  Shape and extra keys of the off table are not judged.
+  coeffs  get_universal_coeffs(l)[m] == (2 - delta_0m)(l-m)!/(l+m)! (exact Fraction -> double) within 4 ulp (a
+          faithful evaluation through factorial quotients rounds once or twice; a wrong digit is >= 1e-5 relative),
+          keys 0..l present, through the dispatcher and through the un-jitted function.
 
 Tolerance (calibrated on the unchanged tree, 1527 angles per degree incl. 0, pi/2, pi, 10^-k and pi-10^-k, un-jitted
 and compiled):
@@ -82,6 +86,7 @@ LEVEL_NOTE = ('Trusts mpmath sin/cos at 40 digits, python integer/Fraction arith
 CASES = {'quick': 3000, 'thorough': 600000}
 SHARDS = {'quick': 8, 'thorough': 16}
 TOL = 1e-10
+COEFF_ULP = 4.0
 EPS = 2.0 ** -52
 RULE = ('fixed: every (l in 2..7, call path) with the 65-angle grid k*pi/64; generated: l in 2..7, call path, 1..6 '
         'obliquities from [0,pi] (uniform (hash-spread) | 0 | pi | pi/2 | 10^-k | pi-10^-k, k in 1..12). Every case checks all (m,p) of its '
@@ -89,7 +94,7 @@ RULE = ('fixed: every (l in 2..7, call path) with the 65-angle grid k*pi/64; gen
         'strictly inside (0,pi) other than pi/2; distinct = distinct (l, path, obliquity list).')
 ASSUMPTIONS = ['oracle: Kaula 1966 eq. 3.62 with exact rational coefficients, mpmath 40 digits (oracles/kaula.py), self-tested',
                'tolerance |table-oracle| <= 1e-10*max(1,max_I F^2): 55x the worst rounding error measured (1.8e-12, l=7)',
-               'off-table values and universal coefficients: exact rational -> double, 1 ulp',
+               'off-table values: TOL*scale against full(0) and exact F(0)^2; universal coefficients: exact rational -> double, 4 ulp',
                'a trigonometric polynomial of degree <= 14 is determined by 29 points; 65 fixed + generated are used per cell']
 
 PATHS_ALL = ['py', 'jit_scalar', 'jit_array', 'multi_py', 'multi_jit']
@@ -113,10 +118,19 @@ def _tables():
     return IF.inclination_functions_on, IF.inclination_functions_off
 
 
+def _py(f):
+    """un-jitted twin of a numba dispatcher; the function itself when numba is off / it is a plain function"""
+    return getattr(f, 'py_func', f)
+
+
 def _helpers(L):
+    """(on, off) multi-degree helpers, or None when the module-internal helper does not exist (best-effort extra)."""
     import importlib
-    mod = importlib.import_module('TidalPy.tides.modes.mode_calc_helper.inclin_calc_orderl%d' % L)
-    return getattr(mod, 'inclination_on_maxl_%d' % L), getattr(mod, 'inclination_off_maxl_%d' % L)
+    try:
+        mod = importlib.import_module('TidalPy.tides.modes.mode_calc_helper.inclin_calc_orderl%d' % L)
+        return getattr(mod, 'inclination_on_maxl_%d' % L), getattr(mod, 'inclination_off_maxl_%d' % L)
+    except (ImportError, AttributeError):
+        return None
 
 
 def _allowed(tier, l, path):
@@ -204,9 +218,10 @@ def warm():
         on[l](np.array([0.3, 0.4]))
         off[l](np.array([0.3, 0.4]))
     for L in range(2, 8):
-        a, b = _helpers(L)
-        a(0.3)
-        b(0.3)
+        hp = _helpers(L)
+        if hp is not None:
+            hp[0](0.3)
+            hp[1](0.3)
     from TidalPy.tides.universal_coeffs import get_universal_coeffs
     get_universal_coeffs(2)
 
@@ -249,15 +264,16 @@ def _check_full(c, l, table, angles, shape, where):
     kaula = _oracle()
     keys = _keys(l)
     got = set(table.keys())
-    c.check(got == keys, {'clause': 'full', 'l': l, 'kind': 'keys'},
-            '%s: l=%d key set differs: missing %s extra %s' % (where, l, sorted(keys - got), sorted(got - keys)))
+    c.check(keys <= got, {'clause': 'full', 'l': l, 'kind': 'keys'},
+            '%s: l=%d table lacks (m,p) entries %s' % (where, l, sorted(keys - got)))
     worst = {}
     for j, x in enumerate(angles):
         ref = kaula.F2_table(l, x)
         for key in keys & got:
             arr = table[key]
-            if arr.shape != shape:
-                c.fail({'clause': 'full', 'l': l, 'kind': 'shape'}, '%s: l=%d %s shape %s, expected %s' % (where, l, key, arr.shape, shape))
+            if arr.size != len(angles):
+                c.fail({'clause': 'full', 'l': l, 'kind': 'shape'},
+                       '%s: l=%d %s has %d values for %d obliquities' % (where, l, key, arr.size, len(angles)))
                 return
             v = float(arr.reshape(-1)[j])
             scale = max(1.0, kaula.max_F2(l, key[0], key[1]))
@@ -271,10 +287,14 @@ def _check_full(c, l, table, angles, shape, where):
 
 
 def _check_off(c, l, off_table, full_at_zero, shape, where):
+    """"the obliquity-off tables equal the full tables evaluated at I=0 (omitted entries being exactly zero there)":
+    listed entries are compared with the full table at I = 0 and with F_lmp(0)^2, both within TOL*scale (an off table
+    implemented as full(0.0) is as good as one of typed-in constants: its (l=5,(1,1)) entry is 8.8e-30, not 0.0);
+    omitted entries must have F_lmp(0)^2 and full(0) within TOL*scale of zero.  Neither the array shape of the off
+    table (it ignores its argument's value) nor extra keys are judged."""
     kaula = _oracle()
     keys = _keys(l)
     got = set(off_table.keys())
-    c.check(got <= keys, {'clause': 'off', 'l': l, 'kind': 'keys'}, '%s: off table has keys outside 0..l: %s' % (where, sorted(got - keys)))
     for key in sorted(keys):
         z = kaula.exact_at_zero(l, key[0], key[1])
         ref = float(z * z)
@@ -282,20 +302,19 @@ def _check_off(c, l, off_table, full_at_zero, shape, where):
         f0 = float(full_at_zero[key]) if key in full_at_zero else None
         sig = {'clause': 'off', 'l': l, 'm': key[0], 'p': key[1]}
         if key in got:
-            arr = off_table[key]
-            if arr.shape != shape:
-                c.fail(dict(sig, kind='shape'), '%s: off %s shape %s expected %s' % (where, key, arr.shape, shape))
+            vals = np.asarray(off_table[key], dtype=float).reshape(-1)
+            if not vals.size:
                 continue
-            vals = arr.reshape(-1)
-            u = max(_ulps(v, ref) for v in vals) if vals.size else 0.0
-            c.check(u <= 1.0, sig, '%s: off table l=%d %s = %r, F_lmp(0)^2 = %r (%s exactly), %.1f ulp'
-                    % (where, l, key, float(vals[0]) if vals.size else None, ref, z, u))
+            d = float(np.max(np.abs(vals - ref)))
+            c.check(d <= TOL * scale, sig, '%s: off table l=%d %s = %r, F_lmp(0)^2 = %r (F_lmp(0) = %s exactly), |diff| = %.3e > %.0e*%.3g'
+                    % (where, l, key, float(vals[0]), ref, z, d, TOL, scale))
             if f0 is not None:
-                c.check(abs(f0 - float(vals[0])) <= TOL * scale, dict(sig, kind='full_at_zero'),
+                d0 = float(np.max(np.abs(vals - f0)))
+                c.check(d0 <= TOL * scale, dict(sig, kind='full_at_zero'),
                         '%s: off table l=%d %s = %r but full table at I=0 gives %r' % (where, l, key, float(vals[0]), f0))
         else:
-            c.check(z == 0, dict(sig, kind='omitted_nonzero'),
-                    '%s: off table omits l=%d %s but F_lmp(0) = %s != 0' % (where, l, key, z))
+            c.check(ref <= TOL * scale, dict(sig, kind='omitted_nonzero'),
+                    '%s: off table omits l=%d %s but F_lmp(0)^2 = %r (F_lmp(0) = %s)' % (where, l, key, ref, z))
             if f0 is not None:
                 c.check(abs(f0) <= TOL * scale, dict(sig, kind='omitted_full_nonzero'),
                         '%s: off table omits l=%d %s but the full table at I=0 gives %r' % (where, l, key, f0))
@@ -304,17 +323,17 @@ def _check_off(c, l, off_table, full_at_zero, shape, where):
 def _check_coeffs(c, l):
     from TidalPy.tides.universal_coeffs import get_universal_coeffs
     kaula = _oracle()
-    for name, fn in (('jit', get_universal_coeffs), ('py', get_universal_coeffs.py_func)):
+    for name, fn in (('jit', get_universal_coeffs), ('py', _py(get_universal_coeffs))):
         with repo_call('get_universal_coeffs.%s' % name):
             tab = {int(k): float(v) for k, v in _cache_safe(fn, l).items()}
-        c.check(set(tab) == set(range(l + 1)), {'clause': 'coeffs', 'l': l, 'kind': 'keys'},
-                'get_universal_coeffs(%d) keys %s' % (l, sorted(tab)))
+        c.check(set(tab) >= set(range(l + 1)), {'clause': 'coeffs', 'l': l, 'kind': 'keys'},
+                'get_universal_coeffs(%d) lacks m in %s' % (l, sorted(set(range(l + 1)) - set(tab))))
         for m in range(l + 1):
             if m not in tab:
                 continue
             ref = kaula.universal_coeff(l, m)
             u = _ulps(tab[m], float(ref))
-            c.check(u <= 1.0, {'clause': 'coeffs', 'l': l, 'm': m},
+            c.check(u <= COEFF_ULP, {'clause': 'coeffs', 'l': l, 'm': m},
                     'get_universal_coeffs(%d)[%d] (%s) = %r, (2-d0m)(l-m)!/(l+m)! = %s = %r (%.3g ulp)'
                     % (l, m, name, tab[m], ref, float(ref), u))
 
@@ -349,8 +368,8 @@ def evaluate(case):
         return {k: np.asarray([float(t[k]) for t in tabs]) for k in keys if all(k in t for t in tabs)}
 
     if path in ('py', 'jit_scalar', 'jit_array'):
-        f = on[l].py_func if path == 'py' else on[l]
-        g = off[l].py_func if path == 'py' else off[l]
+        f = _py(on[l]) if path == 'py' else on[l]
+        g = _py(off[l]) if path == 'py' else off[l]
         where = 'calc_inclin_l%d[%s]' % (l, path)
         with repo_call(where):
             if path == 'jit_array':
@@ -372,10 +391,18 @@ def evaluate(case):
             _check_full(c, l, full_a, angles, (n,), where + '.array')
             _check_off(c, l, off_a, zero, (n,), where + '.array')
     else:
+        # Best-effort extra: the multi-degree helpers are module-internal plumbing of the same tables (not named by the
+        # property).  When they do not exist under these names nothing is judged; when they do, every degree 2..L they
+        # return must be that degree's table (further keys are not judged).
         L = l
-        fon, foff = _helpers(L)
+        hp = _helpers(L)
+        if hp is None:
+            c.label('multi:absent')
+            _check_coeffs(c, l)
+            return c.result()
+        fon, foff = hp
         if path == 'multi_py':
-            fon, foff = fon.py_func, foff.py_func
+            fon, foff = _py(fon), _py(foff)
         where = 'inclination_on/off_maxl_%d[%s]' % (L, path)
         with repo_call(where):
             ron = [_cache_safe(fon, x) for x in angles]
@@ -383,10 +410,11 @@ def evaluate(case):
             rzero = _cache_safe(fon, 0.0)
             degs_on = [sorted(int(k) for k in r.keys()) for r in ron]
             degs_off = [sorted(int(k) for k in r.keys()) for r in roff]
+            degs_on.append(sorted(int(k) for k in rzero.keys()))
         want = list(range(2, L + 1))
-        c.check(all(d == want for d in degs_on) and all(d == want for d in degs_off),
+        c.check(all(set(want) <= set(d) for d in degs_on) and all(set(want) <= set(d) for d in degs_off),
                 {'clause': 'multi', 'L': L, 'kind': 'degrees'},
-                '%s returned degrees %s / %s, expected %s' % (where, degs_on[0], degs_off[0], want))
+                '%s returned degrees %s / %s, which do not contain %s' % (where, degs_on[0], degs_off[0], want))
         for ll in want:
             if not all(ll in d for d in degs_on + degs_off):
                 continue
